@@ -72,11 +72,39 @@ def run_rt(spec, acc):
     for b in burners:
         b.start()
 
-    def do_send(kind, lst):
+    # Server objects (never booted) for the Server.bind() path: one for the
+    # routines (they run one at a time under the main lock), one for the
+    # main thread
+    from sc3.synth.server import Server
+    # (two servers cannot share an address; the recorder ignores the target)
+    srv_r = Server('c07-routines', NetAddr('127.0.0.1', 57201))
+    srv_m = Server('c07-main', NetAddr('127.0.0.1', 57202))
+    BIND_LATS = [0, 0, 0.0, 0.0, 0.2, 0.05, None, -1, -0.0]
+
+    def do_send(kind, lst, srv=srv_r):
         if kind == 'msg':
             addr.send_msg(*lst)
+        elif kind == 'bind':
+            # messages collected by a `with server.bind():` block leave as
+            # one bundle stamped with the server's latency
+            srv.latency = lst[0]
+            with srv.bind():
+                for m in lst[1:]:
+                    srv.addr.send_msg(*m)
         else:
             addr.send_bundle(lst[0], *lst[1:])
+
+    def gen(rng, sid, **kw):
+        """G.gen_send, or (a quarter of the sends) a server.bind() block:
+        ('bind', [server latency, msg, ...]) - judged as that bundle."""
+        if rng.random() >= 0.25:
+            return G.gen_send(rng, sid, **kw)
+        msgs = []
+        for n in range(rng.randint(1, 3)):
+            m = G.gen_send(rng, sid, p_bundle=0.0)[1]
+            m[2] = 100 + n          # distinct from the ids inside blobs
+            msgs.append(m)
+        return ('bind', [rng.choice(BIND_LATS)] + msgs)
 
     def exc_key(e):
         s = tb_sites(e)
@@ -106,7 +134,7 @@ def run_rt(spec, acc):
         if kind == 'msg':
             wmsg(dec, lst)
         else:
-            wb(dec, lst, 'top-level')
+            wb(dec, lst, 'server-bind' if kind == 'bind' else 'top-level')
         return out
 
     def content_check(i, sid, kind, pristine, cap, exc, ctx):
@@ -153,7 +181,18 @@ def run_rt(spec, acc):
                     acc.violation(f'C07/rt/content-differs/{M.mechanism(s)}',
                                   dict(w, decoded=repr(dec)[:400]))
             return None
+        # a bundle with a latency >= 0 that leaves as IMMEDIATELY: one
+        # mechanism, reported once per send (the other monitors would only
+        # repeat it as 'differs' / 'earlier' / 'callback time')
+        for where, L, got in tt_walk(dec, pristine, kind):
+            if L is not None and L >= 0 and got == 1:
+                acc.violation(f'C07/rt/timed-bundle-stamped-immediately/{where}',
+                              dict(w, latency=L, dgram=cap[0][:120]))
+                stamped_imm.add(sid)
+                return None
         return dec
+
+    stamped_imm = set()
 
     def Mttf_unknown(L):
         return 1 if (L is None or L < 0) else None
@@ -180,6 +219,8 @@ def run_rt(spec, acc):
                 continue
             exp = int((L + t) * TWO32) + off
             ncomp += 1
+            if where == 'server-bind' and L == 0:
+                acc.count('rt_server_bind_zero_latency_compared')
             acc.count('rt_timetags_compared')
             acc.count(f'rt_timetags_compared/{where}')
             lo = int((L + p0) * TWO32) + off
@@ -279,7 +320,7 @@ def run_rt(spec, acc):
         timed bundle must be (t + L) within 2**-31 s (timetag truncation
         2**-32 + double rounding)."""
         for sid, k, tm, now in incoming:
-            if sid not in sends or sid not in info:
+            if sid not in sends or sid not in info or sid in stamped_imm:
                 continue
             kind, pristine = sends[sid]
             t, p0 = info[sid]
@@ -361,7 +402,7 @@ def run_rt(spec, acc):
                 steps = []
                 for _ in range(rng.randint(3, 10)):
                     sid = next(sids)
-                    kind, lst = G.gen_send(rng, sid)
+                    kind, lst = gen(rng, sid)
                     sends[sid] = (kind, G.clone(lst))
                     steps.append((sid, kind, lst,
                                   rng.choice([0, 0, 0.0004, 0.002]),
@@ -397,7 +438,7 @@ def run_rt(spec, acc):
                     beat = start * atempo
                 for n in range(rng.randint(2, 5)):
                     sid = next(sids)
-                    kind, lst = G.gen_send(rng, sid, p_bundle=0.9)
+                    kind, lst = gen(rng, sid, p_bundle=0.9)
                     sends[sid] = (kind, G.clone(lst))
                     dsec = rng.choice([0, 0.003, 0.003, 0.007, 0.02])
                     slp = rng.choice([0, 0, 0, 0.001, rng.uniform(0.02, 0.1)
@@ -434,7 +475,7 @@ def run_rt(spec, acc):
             n = 0
             while not all(e.is_set() for e in events) and time.time() < deadline:
                 sid = next(sids)
-                kind, lst = G.gen_send(rng2, sid, p_bundle=0.9)
+                kind, lst = gen(rng2, sid, p_bundle=0.9)
                 sends[sid] = (kind, G.clone(lst))
                 mode = ('locked-while-clocks-run', 'unlocked-while-clocks-run')[n % 2]
                 n += 1
@@ -444,14 +485,14 @@ def run_rt(spec, acc):
                     with main._main_lock:
                         p0 = main.elapsed_time()
                         try:
-                            do_send(kind, lst)
+                            do_send(kind, lst, srv_m)
                         except Exception as e:
                             exc = e
                         p1 = main.elapsed_time()
                 else:
                     p0 = main.elapsed_time()
                     try:
-                        do_send(kind, lst)
+                        do_send(kind, lst, srv_m)
                     except Exception as e:
                         exc = e
                     p1 = main.elapsed_time()
@@ -481,13 +522,13 @@ def run_rt(spec, acc):
             # quiet sends: nothing scheduled, no traffic
             for _ in range(8):
                 sid = next(sids)
-                kind, lst = G.gen_send(rng2, sid, p_bundle=0.9)
+                kind, lst = gen(rng2, sid, p_bundle=0.9)
                 sends[sid] = (kind, G.clone(lst))
                 tls.cap = cap = []
                 exc = None
                 p0 = main.elapsed_time()
                 try:
-                    do_send(kind, lst)
+                    do_send(kind, lst, srv_m)
                 except Exception as e:
                     exc = e
                 p1 = main.elapsed_time()
